@@ -19,11 +19,11 @@ LEVEL_TEXT = ('partial. Lean 4 theorems (exact arithmetic): rescaling by s divid
               'and the segment count is kept; under nearest-sample resampling disjoint segments stay disjoint and their union is the resampled union; s then 1/s returns pixel scale and (for integer n*s) shape; the grid of util.rescale is REGENERATED from the source (each axis centred and sized with its own lengths); the original is untouched (regenerated effect table). Compared with the code on every case: shapes, '
               'per-axis pixel scale, the amplitude factor 1/s on top of util.rescale, the whole interpolation grid, refusals. Power/image/amplitude/OPD '
               'preservation "to interpolation accuracy" is measured, not proved.')
-LEVEL_NOTE = ('partial: bookkeeping theorems over a hand model whose grid (shape argument, row/column coordinates, coordinate order) is regenerated from util.py (Gen/RescaleGrid.lean); the wiring of Plane.rescale is hand-modelled + pinned; cubic-spline interpolation accuracy (scipy map_coordinates) is an '
+LEVEL_NOTE = ('partial: bookkeeping theorems over a hand model whose grid (shape argument, row/column coordinates, coordinate order) is regenerated from util.py (Gen/RescaleGrid.lean); the wiring of Plane.rescale/resample (copy, ndim guards, /scale, interpolation options, binarise/cast/slice, per-axis pixel scale, guards) is regenerated too (Gen/PlaneRescale.lean, plane_rescale_wiring); cubic-spline interpolation accuracy (scipy map_coordinates) is an '
               'external analytic fact — unproven clause, measured on smooth apertures; the sample count follows float64 semantics of ceil(n*s) at the '
               'float seam (ASSUMPTIONS); segment coverage is oracle-only.')
 TECHNIQUE = 'Lean 4 proof (ordered-field algebra with Int.ceil) over a hand model + differential correspondence at exact rationals; measured interpolation clause'
-GEN = ['Effects', 'RescaleGrid']
+GEN = ['Effects', 'Extent', 'FieldDispatch', 'FieldIdx', 'FieldMerge', 'PlaneRescale', 'RescaleGrid']     # every Gen module the model, lemmas, theorems and driver ops import (transitively)
 OPS = ['C17']
 RULE = ('cases: planes with smooth (super-Gaussian edge) amplitude and low-order polynomial OPD on grids 24..56 (even/odd, non-square), '
         'monolithic or 2..3 segment masks, float or integer mask dtype, uniform / per-axis (px, 1.5 px) / absent pixel scale, scalar '
